@@ -25,7 +25,8 @@ REG = {
     "C03": {
         "modules": ["VProofs.Props.C03", "VProofs.Props.Pandas"],
         "theorems": thms("C03", ["C03_infer_sound", "C03_lands_step", "C03_lands_pandas"])
-                    + ["V.Pd.pandas_WF", "V.Pd.outputs_good", "V.Pd.goodB_sound", "V.Pd.built_typeset", "V.PandasProps.C03_pandas", "V.PandasProps.C03_pandas_model"],
+                    + ["V.Pd.pandas_WF", "V.Pd.outputs_good", "V.Pd.goodB_sound", "V.Pd.built_typeset", "V.PandasProps.C03_pandas", "V.PandasProps.C03_pandas_model",
+                       "V.PandasProps.infer_pandas_complete"],
         "runners": ["pandas", "numpy", "list", "frame"],
     },
     "C04": {
@@ -62,7 +63,7 @@ REG = {
     "C06": {
         "modules": ["VProofs.Props.C06"],
         "theorems": thms("C06", ["C06_shape", "C06_lossless_float_integer", "C06_lossless_complex_float",
-                                 "C06_lossless_datetime_date", "oks_length"]),
+                                 "C06_lossless_datetime_date", "oks_length", "C06_shape_infer", "C06_nulls_step"]) + ["V.Pd.nulls_pandas"],
         "runners": ["pandas", "frame", "family"],
         "relevant": ["xform", "infer-data", "guard", "relation-missing"],
     },
